@@ -1,5 +1,6 @@
 import EV.Model.Wire
 import EV.Model.Index
+import EV.Model.IndexSplit
 import EV.Spec.Chain
 
 /-! Line-protocol driver for suite `index` (concrete index model). -/
@@ -18,6 +19,8 @@ structure DSt where
   /-- spec state of the chain last given with `S_CHAIN`, and that chain -/
   spec : EV.Spec.St := {}
   specChain : List Block := []
+  /-- a `lookup_utxos` call suspended between its two jobs: prevout and what job 1 handed over -/
+  pend : Option (Hash × Nat × Option (HashX × Nat)) := none
 deriving Inhabited
 
 def lexLe : List Nat → List Nat → Bool
@@ -210,6 +213,24 @@ def stepLine (d : DSt) (line : String) : DSt × String :=
       | none => (d, "none")
       | some (hx, v) => (d, s!"{hx}:{v}")
     | _, _ => (d, "bad-op")
+  | ["Q_LOOKUP2A", txid, idx] =>
+    -- job 1 of `lookup_utxos` (`lookup_hashXs`) in the current state; the call stays suspended
+    match txid.toNat?, idx.toNat? with
+    | some t, some i =>
+      ({ d with pend := some (t, i, lookupHashX d.s t i) },
+        match lookupHashX d.s t i with
+        | none => "none"
+        | some (hx, n) => s!"{hx}:{n}")
+    | _, _ => (d, "bad-op")
+  | ["Q_LOOKUP2B"] =>
+    -- job 2 (`lookup_utxos`, with the re-check of F22) in the current state
+    match d.pend with
+    | none => (d, "bad-op")
+    | some (t, i, ph) =>
+      ({ d with pend := none },
+        match lookupValue true d.s t i ph with
+        | none => "none"
+        | some (hx, v) => s!"{hx}:{v}")
   | ["Q_TXHASHES", h] =>
     match h.toNat? with
     | some h =>
